@@ -204,6 +204,6 @@ NoLostWakeup == Quiescent => ~Lost                      \* C09 — reported as h
 BufferBounds == \A p \in PortNames : Len(inb[p]) <= PDef(p).icap /\ Len(outb[p]) <= PDef(p).ocap
 TickDiscipline == tickOK                                \* C12: on edges, at most once per instant
 GuardSound == \A c \in Ticking : \A e \in G.evq : e.c = c => (G.guard[c].has /\ G.guard[c].next >= e.t)
-TimeBounded == time <= Horizon + 8
+TimeBounded == time <= Horizon + 24   \* sanity bound that keeps the model finite, not a property of interest
 Emit == Quiescent => PrintT(<<"BEHAVIOUR", ToJson([topo |-> T, script |-> script, lost |-> Lost, time |-> time])>>)
 ==============================================================================
